@@ -1,7 +1,8 @@
 (* C09 -- fwer_minp attaches the step-down values to the right hypotheses and is monotone.
    Statements only; proofs in Proofs/FwerProofs.v.  [ord] is the sorting permutation NumPy returned (an oracle
    input, checked per correspondence case to be a sorting permutation). *)
-From PV Require Import Lib.Base Model.Npc Proofs.NpcProofs Proofs.FwerProofs.
+From PV Require Import Lib.Base Model.Npc Proofs.NpcProofs Proofs.FwerProofs Proofs.NpcRelabel Proofs.FwerRelabel.
+From Coq Require Import Permutation.
 Open Scope Q_scope.
 
 (* restoring the caller's order: the hypothesis ord[k] (k-th smallest raw p-value) receives the k-th step-down
@@ -37,6 +38,25 @@ Proof.
   intros H. inversion H. exists first, rest. split; [reflexivity|split; [exact E2|reflexivity]].
 Qed.
 Print Assumptions C09_first_is_global_and_last_is_max.
+
+(* relabelling: permute pvalues and the columns of distr by [sigma]; if [ord'] is the testing order used for
+   the relabelled input, then [compose sigma ord'] reads the original p-values in exactly the same sequence
+   (so it sorts p iff ord' sorts the relabelled vector -- for distinct p-values THE sorting order), and the
+   outputs correspond: out'[k] = out[sigma k] *)
+Theorem C09_relabelling_permutes_the_output : forall p distr sigma ord' c plus1 l',
+  Permutation sigma (seq 0 (length p)) -> Permutation ord' (seq 0 (length p)) ->
+  forallb (fun r => Nat.eqb (length r) (length p)) distr = true ->
+  fwer_minp (take_cols sigma p) (map (take_cols sigma) distr) ord' c plus1 = Ok l' ->
+  take_cols ord' (take_cols sigma p) = take_cols (compose sigma ord') p /\
+  exists l, fwer_minp p distr (compose sigma ord') c plus1 = Ok l /\
+            forall k, (k < length p)%nat -> nth k l' 0 = nth (nth k sigma 0%nat) l 0.
+Proof.
+  intros p distr sigma ord' c plus1 l' Hs Ho Hrows H. split.
+  - apply take_cols_compose. intros i Hi. apply (Permutation_in _ Ho) in Hi. apply in_seq in Hi.
+    rewrite (Permutation_length Hs), seq_length. lia.
+  - exact (fwer_relabel p distr sigma ord' c plus1 l' Hs Ho Hrows H).
+Qed.
+Print Assumptions C09_relabelling_permutes_the_output.
 
 Theorem C09_last_value : forall pl c plus1 prev, stepdown [pl] [] c plus1 prev 0 = Ok [Qmax pl prev].
 Proof. reflexivity. Qed.
